@@ -175,7 +175,7 @@ def normalise(tree: ast.Module, modname: str) -> int:
         mapping: Dict[str, str] = {}
         for nm, key in sigs.items():
             want = ref.get(key)
-            if want and want != nm and want not in cur_names and want not in mapping.values():
+            if want and want != nm and want.strip("_") and want not in cur_names and want not in mapping.values():
                 mapping[nm] = want
         if mapping:
             _Rename(mapping).visit(fn)
